@@ -5,8 +5,53 @@
 
 #include <gudhi/Simplex_tree.h>
 #include <sstream>
+#include <cstring>
+#include <cmath>
 
 using namespace vf;
+
+// A user-defined filtration value (the FiltrationValue concept): a number whose serialised image has a length that
+// depends on the value (1 to 3 words after a length prefix), as vector-valued filtrations have.  get_serialization_size()
+// must add up the sizes of the values actually stored.
+struct VarFV {
+  double x = 0;
+  VarFV() = default;
+  VarFV(double v) : x(v) {}
+  explicit operator double() const { return x; }
+  std::size_t words() const { return std::isfinite(x) ? 1 + static_cast<std::size_t>(std::llabs(static_cast<long long>(x)) % 3) : 1; }
+  friend bool operator<(const VarFV& a, const VarFV& b) { return a.x < b.x; }
+  friend bool operator>(const VarFV& a, const VarFV& b) { return a.x > b.x; }
+  friend bool operator<=(const VarFV& a, const VarFV& b) { return a.x <= b.x; }
+  friend bool operator>=(const VarFV& a, const VarFV& b) { return a.x >= b.x; }
+  friend bool operator==(const VarFV& a, const VarFV& b) { return a.x == b.x; }
+  friend bool operator!=(const VarFV& a, const VarFV& b) { return a.x != b.x; }
+  friend std::ostream& operator<<(std::ostream& os, const VarFV& a) { return os << a.x; }
+  friend std::istream& operator>>(std::istream& is, VarFV& a) { return is >> a.x; }
+  friend std::size_t get_serialization_size_of(const VarFV& a) { return sizeof(std::size_t) + a.words() * sizeof(double); }
+  friend char* serialize_value_to_char_buffer(const VarFV& a, char* start) {
+    const std::size_t n = a.words();
+    std::memcpy(start, &n, sizeof n);
+    start += sizeof n;
+    for (std::size_t i = 0; i < n; ++i, start += sizeof(double)) std::memcpy(start, &a.x, sizeof(double));
+    return start;
+  }
+  friend const char* deserialize_value_from_char_buffer(VarFV& a, const char* start) {
+    std::size_t n;
+    std::memcpy(&n, start, sizeof n);
+    start += sizeof n;
+    if (n > 0) std::memcpy(&a.x, start, sizeof(double));
+    return start + n * sizeof(double);
+  }
+};
+namespace std {
+template <> struct numeric_limits<VarFV> {
+  static constexpr bool is_specialized = true, has_infinity = true, has_quiet_NaN = false;
+  static VarFV infinity() { return VarFV(numeric_limits<double>::infinity()); }
+  static VarFV max() { return VarFV(numeric_limits<double>::max()); }
+  static VarFV lowest() { return VarFV(numeric_limits<double>::lowest()); }
+  static VarFV quiet_NaN() { return VarFV(numeric_limits<double>::quiet_NaN()); }
+};
+}  // namespace std
 
 template <bool Stable, bool Link, bool Contig, class Filt = double, bool StoreFilt = true>
 struct LcOpt {
@@ -189,6 +234,7 @@ int main(int argc, char** argv) {
   run<LcOpt<true, false, false>>(ctx, "S1L0C0");
   run<LcOpt<false, false, true>>(ctx, "S0L0C1");
   run<LcOpt<true, true, true>>(ctx, "S1L1C1");
+  run<LcOpt<false, false, false, VarFV>>(ctx, "S0L0C0_varfil");
 #endif
   std::fclose(ctx.out);
   return 0;
